@@ -1,4 +1,5 @@
 """C06 implementation side: serialise / load round trips on the working tree of pySigma."""
+from impl.excname import exc_name
 import copy, datetime, json, random
 import yaml
 from sigma.rule import SigmaRule, SigmaDetections, SigmaDetection, SigmaDetectionItem
@@ -28,9 +29,9 @@ def outcome(f):
     try:
         return {"ok": jsonable(f())}
     except SigmaError as e:
-        return {"err": type(e).__name__, "msg": str(e)[:120]}
+        return {"err": exc_name(e), "msg": str(e)[:120]}
     except Exception as e:  # noqa
-        return {"crash": type(e).__name__, "msg": str(e)[:120]}
+        return {"crash": exc_name(e), "msg": str(e)[:120]}
 
 
 # ---- canonical form of a test-backend query: operands of and / or sorted, same operators flattened.
@@ -125,7 +126,7 @@ def query_of(f):
     try:
         return canon_query("\n".join(str(x) for x in f()))
     except Exception as e:  # noqa
-        return "ERR:" + type(e).__name__
+        return "ERR:" + exc_name(e)
 
 
 def q_of_det(det):
@@ -141,9 +142,9 @@ def reload_outcome(f):
         r2 = f()
         return outcome(lambda: r2.to_dict())
     except SigmaError as e:
-        return {"err": type(e).__name__, "msg": str(e)[:120], "stage": "reload"}
+        return {"err": exc_name(e), "msg": str(e)[:120], "stage": "reload"}
     except Exception as e:  # noqa
-        return {"crash": type(e).__name__, "msg": str(e)[:120], "stage": "reload"}
+        return {"crash": exc_name(e), "msg": str(e)[:120], "stage": "reload"}
 
 
 def run_det(case):
@@ -306,5 +307,5 @@ def run_doc(case):
         try:
             res["same_obj"] = bool(cls.from_dict(copy.deepcopy(d1["ok"])) == obj)
         except Exception as e:  # noqa
-            res["same_obj"] = "ERR:" + type(e).__name__
+            res["same_obj"] = "ERR:" + exc_name(e)
     return res
